@@ -73,7 +73,7 @@ FAMILIES = {
 
 
 # oracle on the implementation's own count, with characters for tokens.  Proved of the model for every statement class: C19.cursor_steps_linear (≤ 5000·tokens + 482)
-# and C19.total_steps_linear (≤ 20002·|text| + 10483, handle calls included), lean/MsqProofs/Props/C19T.lean; the line below is the constant of the SELECT block
+# and C19.total_steps_linear (≤ 10002·|text| + 5483, handle calls included), lean/MsqProofs/Props/C19T.lean; the line below is the constant of the SELECT block
 # (C19.cursor_steps_linear_select) — TIGHTER than the theorem for DML / DDL, so for those classes it is a measurement that happens to hold
 PC_A, PC_B = 1400, 300
 
